@@ -124,6 +124,11 @@ pub trait Pool {
     fn finalized_slot(&self) -> Slot;
     fn parents_ready(&self, slot: Slot) -> &[BlockId];
     fn wait_for_parent_ready(&mut self, slot: Slot) -> Either<BlockId, oneshot::Receiver<BlockId>>;
+    /// Verification hook: number of `add_block` calls this pool has seen.
+    #[cfg(feature = "verif-hooks")]
+    fn verif_add_block_calls(&self) -> usize {
+        0
+    }
 }
 
 /// Shared, lock-protected handle to a [`Pool`] trait object.
@@ -155,6 +160,8 @@ pub struct PoolImpl {
     /// Every `FinalizationEvent` processed so far (verification harness only).
     #[cfg(feature = "verif-hooks")]
     verif_finalization_log: Vec<FinalizationEvent>,
+    #[cfg(feature = "verif-hooks")]
+    verif_add_block_calls: usize,
 }
 
 impl PoolImpl {
@@ -176,6 +183,8 @@ impl PoolImpl {
             repair_channel,
             #[cfg(feature = "verif-hooks")]
             verif_finalization_log: Vec::new(),
+            #[cfg(feature = "verif-hooks")]
+            verif_add_block_calls: 0,
         }
     }
 
@@ -553,6 +562,10 @@ impl Pool for PoolImpl {
     /// This should be called once for every valid block (e.g. directly by blockstore).
     /// Ensures that the parent information is available for safe-to-notar checks.
     async fn add_block(&mut self, block_id: BlockId, parent_id: BlockId) {
+        #[cfg(feature = "verif-hooks")]
+        {
+            self.verif_add_block_calls += 1;
+        }
         assert!(block_id.0 > parent_id.0);
         let (slot, block_hash) = &block_id;
         let (parent_slot, parent_hash) = &parent_id;
@@ -632,6 +645,11 @@ impl Pool for PoolImpl {
     /// Returns all possible parents for the given slot that are ready.
     fn parents_ready(&self, slot: Slot) -> &[BlockId] {
         self.parent_ready_tracker.parents_ready(slot)
+    }
+
+    #[cfg(feature = "verif-hooks")]
+    fn verif_add_block_calls(&self) -> usize {
+        self.verif_add_block_calls
     }
 
     fn wait_for_parent_ready(&mut self, slot: Slot) -> Either<BlockId, oneshot::Receiver<BlockId>> {
